@@ -48,15 +48,21 @@ func C05(c *Ctx) {
 // Validate (which the callbacks call before they count the participant, R5) refuses an empty contribution: a length test
 // of the contribution field whose empty edge cannot reach the nil return.
 func c05NonEmptyContribution(c *Ctx) {
+	c.R.Rule("C05/R9", "an empty contribution is not a delivery: Validate refuses zero-length contribution bytes", 4)
+	nonEmptyContributionAs(c, "C05/R9")
+}
+
+// nonEmptyContributionAs evaluates the rule under the given id (C10 relies on it as the only step binding the unsigned
+// event name leaves: a message of another step does not carry this step's field).
+func nonEmptyContributionAs(c *Ctx, rule string) {
 	r := c.R
-	r.Rule("C05/R9", "an empty contribution is not a delivery: Validate refuses zero-length contribution bytes", 4)
 	for _, tf := range [][2]string{
 		{"DKGProposalCommitConfirmationRequest", "Commit"},
 		{"DKGProposalDealConfirmationRequest", "Deal"},
 		{"DKGProposalResponseConfirmationRequest", "Response"},
 		{"DKGProposalMasterKeyConfirmationRequest", "MasterKey"},
 	} {
-		fn := c.Fn("C05/R9", pkgRequests, tf[0], "Validate")
+		fn := c.Fn(rule, pkgRequests, tf[0], "Validate")
 		if fn == nil {
 			continue
 		}
@@ -92,7 +98,7 @@ func c05NonEmptyContribution(c *Ctx) {
 				}
 			}
 		}
-		r.Check(ok, "C05/R9", "requests."+tf[0]+".Validate:non-empty-"+tf[1], "a request with an empty "+tf[1]+" is refused", c.Pos(fn.Pos()),
+		r.Check(ok, rule, "requests."+tf[0]+".Validate:non-empty-"+tf[1], "a request with an empty "+tf[1]+" is refused", c.Pos(fn.Pos()),
 			detail+": an empty contribution would be counted as delivered and the phase could advance without it")
 	}
 }
